@@ -193,11 +193,13 @@ def loop_progress(F, S, fn):
     out = []
     n = 0
     for nd in fn.nodes:
-        if nd["k"] not in ("DoStmt", "WhileStmt", "ForStmt") or "cond" not in nd:
+        if nd["k"] not in ("DoStmt", "WhileStmt", "ForStmt"):
             continue
-        ct = fn.term(nd["cond"])
-        if not (ct[0] == "op" and ct[1] in ("<", "<=", "!=")):
+        from .through import continue_conditions
+        cts = [t for t in continue_conditions(fn, nd) if t[0] == "op" and t[1] in ("<", "<=", "!=")]
+        if not cts:
             continue
+        ct = cts[0]
         cur = ct[2]
         if cur[0] == "op" and cur[1] == "+" and cur[2][0] == "var":
             cur = cur[2]
